@@ -14,6 +14,7 @@ from fractions import Fraction
 
 from ..sx import terms as T
 from ..shims import scipy_shim as SS
+from ..shims import pd_shim
 from ..shims.np_shim import SymArray, Uninit, UninitRead
 from .common import (P, box, check_defined, evalf, load_sym, model_floats, not_close, paths, rng, K, Q, Sym, lift,
                      simp, fresh)
@@ -57,7 +58,7 @@ def _mods():
 
 # ------------------------------------------------------------------ replay
 
-def replay(model, target="oil.b_o_Standing", dtype="f8", n=2, intparams=False):
+def replay(model, target="oil.b_o_Standing", dtype="f8", n=2, intparams=False, series=False):
     import numpy as np
     import bluebonnet.fluids.oil as oil
     import bluebonnet.fluids.water as water
@@ -68,6 +69,10 @@ def replay(model, target="oil.b_o_Standing", dtype="f8", n=2, intparams=False):
     if dtype.startswith("i"):
         vals = [float(round(v)) for v in vals]
     arr = np.array(vals, dtype=NP_DT[dtype])
+    if series:
+        # a column of a re-ordered table: index labels n-1..0 in row order (positions pair pressures with results)
+        import pandas as pd
+        arr = pd.Series(arr, index=list(range(n - 1, -1, -1)))
     before = arr.copy()
     fl = Fluid(m["T"], m["api"], m["gg"], m["rsi"], m["S"])
     if intparams:
@@ -101,14 +106,38 @@ def replay(model, target="oil.b_o_Standing", dtype="f8", n=2, intparams=False):
         problems.append(f"result dtype {out.dtype} is not floating")
     if out.shape != arr.shape:
         problems.append(f"result shape {out.shape} != input shape {arr.shape}")
-    if not np.array_equal(arr, before):
+    if not np.array_equal(np.asarray(arr), np.asarray(before)):
         problems.append("input array modified")
+    arr = np.asarray(arr)
     tol = 1e-5 if dtype == "f4" else 1e-9
     if out.shape == arr.shape:
         for j in range(n):
             want = float(fs(int(arr[j]) if (intparams and dtype.startswith("i")) else float(arr[j])))
             if not abs(float(out[j]) - want) <= tol * abs(want) + 1e-300:
                 problems.append(f"element {j}: array call gives {float(out[j])!r}, scalar call gives {want!r} (p={float(arr[j])!r})")
+    if not problems and "oil" in target.lower() and n:
+        # exactly at the bubble point: the solver's value for such an element cannot be hit in doubles, so the real
+        # p_b (as a caller gets it from pressure_bubblepoint_Standing) is put in each position in turn
+        pb = float(oil.pressure_bubblepoint_Standing(T_, api, gg, rsi))
+        for j in range(n):
+            a2 = np.array(vals, dtype="float64")
+            a2[j] = pb
+            a2 = a2.astype(NP_DT[dtype])
+            if float(a2[j]) != pb and not dtype.startswith("i"):
+                pb_j = float(a2[j])      # float32: the nearest representable value is what the caller can pass
+            with np.errstate(all="ignore"):
+                try:
+                    o2 = np.asarray(fa(a2), float)
+                except Exception as ex:  # noqa: BLE001
+                    problems.append(f"element {j} at the bubble point: raised {ex!r}")
+                    break
+            for i in range(n):
+                want = float(fs(int(a2[i]) if (intparams and dtype.startswith("i")) else float(a2[i])))
+                if o2.shape != a2.shape or not abs(float(o2[i]) - want) <= tol * abs(want) + 1e-300:
+                    problems.append(f"array {a2.tolist()} (element {j} exactly at p_b={pb!r}): element {i} gives {float(o2[i]) if o2.shape == a2.shape else o2!r}, scalar call gives {want!r}")
+                    break
+            if problems:
+                break
     return bool(problems), {"what": f"{target} on {NP_DT[dtype]}[{n}]: " + ("; ".join(problems[:3]) or "array == scalar"), "inputs": m}
 
 
@@ -133,21 +162,21 @@ def job_target(job, target, lengths):
     job.assume_text("integer dtypes: element values in [15, 20000]; 'python-int parameters' variant: temperature, API gravity, "
                     "initial GOR and salinity are Python ints (whole numbers), gas gravity a float; integer-dtype array arithmetic "
                     "must stay inside the dtype's range on that box (no silent wrap-around)")
-    variants = [(dt, False) for dt in DTYPES] + [(dt, True) for dt in ("i8", "i4")]
-    for dt, intp in variants:
+    variants = [(dt, False, False) for dt in DTYPES] + [(dt, True, False) for dt in ("i8", "i4")] + [("f8", False, True)]
+    for dt, intp, ser in variants:
         vs, dom = (vs_i, dom_i) if intp else (vs_f, dom_f)
         for n in (lengths[dt] if isinstance(lengths, dict) else lengths):
-            if intp and n == 0:
+            if (intp and n == 0) or (ser and n < 2):
                 continue
             els = [fresh(f"e{j}", pos=True, integer=intp) for j in range(n)]
             edom = []
             for e in els:
                 edom += [T.b_le(T.Poly.const(15), P(e)), T.b_le(P(e), T.Poly.const(20000))]
-            rp = (replay, {"target": target, "dtype": dt, "n": n, "intparams": intp})
-            tag = f"{target}[{NP_DT[dt]}{',python-int parameters' if intp else ''},len={n}]"
+            rp = (replay, {"target": target, "dtype": dt, "n": n, "intparams": intp, "series": ser})
+            tag = f"{target}[{NP_DT[dt]}{',python-int parameters' if intp else ''}{',Series labelled n-1..0' if ser else ''},len={n}]"
 
             def run():
-                arr = SymArray([Sym(e.p) for e in els], dt)
+                arr = SymArray([Sym(e.p) for e in els], dt) if not ser else pd_shim.SymSeries([Sym(e.p) for e in els], dt, list(range(n - 1, -1, -1)))
                 snap = list(arr.d)
                 out = call_arr(mod, vs, arr)
                 scal = [call_scalar(mods, vs, e) for e in els]
